@@ -86,6 +86,8 @@ fn main() {
                 xmlcase::run_huge(seed, count, &mut out);
             } else if mode == "boundary" {
                 xmlcase::run_boundary(count, &mut out);
+            } else if mode == "bigvalues" {
+                xmlcase::run_bigvalues(seed, count, &mut out);
             } else if mode == "descriptors" {
                 xmlcase::run_descriptors(seed, 6, &mut out);
             } else if mode == "probe-content-object" {
